@@ -42,7 +42,8 @@ def dict_shapes():
     }
 
 
-EFFECTS = ("leave", "add-or-rebind", "delete")
+EFFECTS = ("leave", "add-or-rebind", "rebind-to-another-object", "rebind-to-None", "delete-then-rebind", "delete")
+OTHER = object()
 EXITS = ("return", "raise-before", "raise-after")
 
 
@@ -64,6 +65,13 @@ def run(chk):
                     raise ZeroDivisionError("scripted")
                 if eff == "add-or-rebind":
                     d["hy"] = hy
+                elif eff == "rebind-to-another-object":
+                    d["hy"] = OTHER
+                elif eff == "rebind-to-None":
+                    d["hy"] = None
+                elif eff == "delete-then-rebind":
+                    d.pop("hy", None)
+                    d["hy"] = OTHER
                 elif eff == "delete":
                     d.pop("hy", None)
                 if ext == "raise-after":
@@ -95,6 +103,13 @@ def run(chk):
                         raise ZeroDivisionError
                     if eff == "add-or-rebind":
                         g["hy"] = hy
+                    elif eff == "rebind-to-another-object":
+                        g["hy"] = OTHER
+                    elif eff == "rebind-to-None":
+                        g["hy"] = None
+                    elif eff == "delete-then-rebind":
+                        g.pop("hy", None)
+                        g["hy"] = OTHER
                     elif eff == "delete":
                         g.pop("hy", None)
                     if ext == "raise-after":
@@ -131,7 +146,8 @@ def run(chk):
 
     # bounded end-to-end with the real compiler
     srcs = ["(do 1 2 3)", "(do (setv q 4) (+ q 1))", "(raise (ValueError \"x\"))", "(do (setv q 1) (raise (KeyError 1)))",
-            "(undefined-macro-or-fn 1)", "(setv", "(do (import os) (del hy) 5)", "(do (setv hy 9) hy)"]
+            "(undefined-macro-or-fn 1)", "(setv", "(do (import os) (del hy) 5)", "(do (setv hy 9) hy)",
+            "(do (import math :as hy) 1)", "(do (setv hy None) 1)", "(do (setv hy \"mine\") (raise (ValueError hy)))", "(defn hy [] 1)"]
     bad = []
     for src in srcs:
         for lname, lmk in shapes.items():
@@ -145,7 +161,8 @@ def run(chk):
             if ("hy" in d) != had or (had and d["hy"] is not was):
                 bad.append((src, lname))
     chk.ob("e2e/real hy.eval on programs that return, raise, fail to read, delete or rebind hy", not bad, "cpython-oracle", "bounded",
-           detail=str(bad))
+           detail=str(bad), witness={"input": bad[0]} if bad else None,
+           replay={"confirmed": True, "input": f"hy.eval of {bad[0][0]} with a {bad[0][1]} dictionary"} if bad else None)
     chk.fn("hy/compiler.py::hy_eval_user", "hy/compiler.py::hy_eval")
     chk.trust("callee contract of hy_eval (touches the dictionaries only by executing code)", "value of the last form = expression context (C01)")
     # canary: a hy_eval_user without the finally must be refuted by the raise-after case
